@@ -218,6 +218,9 @@ class FuncORD:
       if isinstance(first, ast.Subscript) and isinstance(first.value, ast.Name) and first.value.id in params and \
           isinstance(U.const_value(first.slice), int):
         return 'tuple:%r' % (U.const_value(first.slice),)
+      if not _is_time_expr(first, params) and isinstance(body, ast.Tuple) and len(body.elts) > 1:
+        # grouped first (by instrument, say), then by time: whether the consumer keeps separate state per group is not read here
+        return 'unknown'
       return _is_time_expr(first, params)
     if d in ('operator.attrgetter', 'attrgetter') and key.args and isinstance(key.args[0], ast.Constant):
       return key.args[0].value in TIME_KEYS
